@@ -1,11 +1,51 @@
 /-
-  Drv/Escapes.lean — line-protocol request for the escape decoder (C12, escape clause).
-    U <quote: d|s> <literal body cps>   → decoded cps | `err <kind>` | `exc <PythonExceptionName>`
-  (placeholder until PestModel/Unescape.lean exists)
+  Drv/Escapes.lean — line-protocol requests for the escape decoder (C12, escape clause).
+
+  Texts are code points joined by `.`; the empty text is a lone `-`.
+    U <quote: d|s> <literal body>   the model of `unescape_string(body, token, quote)`
+                                    → decoded text | `err <slug>` | `exc <PythonExceptionName>`
+                                    (`quote` is ignored, as the code ignores it)
+    USPEC <literal body>            the *specification* `specUnescape`
+                                    → decoded text | `none`
+    ULEN <text>                     `RE_ESCAPE.match(text)` → length of the match | `none`
 -/
+import PestModel.Unescape
+
+open Pest.Unescape
+
 namespace Drv
 
+def encCps (t : List Nat) : String :=
+  if t.isEmpty then "-" else ".".intercalate (t.map toString)
+
+def decCps (s : String) : Option (List Nat) :=
+  if s == "-" then some [] else (s.splitOn ".").mapM (·.toNat?)
+
+def showRes : Res → String
+  | .ok s => encCps s
+  | .error e => "err " ++ e.slug
+  | .exc n => "exc " ++ n
+
 def handleEscapes : List String → Option String
+  | ["U", q, body] => some <|
+    if q != "d" && q != "s" then "bad-args"
+    else match decCps body with
+      | some b => showRes (unescape b)
+      | none => "bad-args"
+  | ["USPEC", body] => some <|
+    match decCps body with
+    | some b =>
+      match specUnescape b with
+      | some r => encCps r
+      | none => "none"
+    | none => "bad-args"
+  | ["ULEN", body] => some <|
+    match decCps body with
+    | some b =>
+      match escapeLen b with
+      | some n => toString n
+      | none => "none"
+    | none => "bad-args"
   | _ => none
 
 end Drv
